@@ -308,6 +308,7 @@ def engine_check(ctx, P, sample_pred, seed_off):
         sh, _ = snap_trace(ctx, "pods-3ord", "pods-del", 2, 3, 5, 60000, [inv_t], seed_off)
         sh2, _ = snap_trace(ctx, "pods-4ord", "pods", 3, 3, 5, 40000, [inv_t], seed_off + 1)
         snap_trace(ctx, "pods-8to11", "pods-wide", 3, 4, 5, 30000, [inv_t], seed_off + 3)
+        snap_trace(ctx, "pods-stale", "pods-stale", 2, 3, 5, 30000, [inv_t], seed_off + 4)
     else:
         ctx.design("MCSnapshot", mc_snapshot_cfg(2, 2, 3, False, [inv_d]), "pods-3ord-3ph")
         ctx.design("MCSnapshot", mc_snapshot_cfg(1, 2, 5, True, [inv_d]), "pods-2ord-5ph-del")
@@ -315,6 +316,7 @@ def engine_check(ctx, P, sample_pred, seed_off):
         sh2, _ = snap_trace(ctx, "pods-4ord", "pods", 3, 3, 5, 600000, [inv_t], seed_off + 1)
         sh3, _ = snap_trace(ctx, "pods-2ord-exh", "pods-del", 1, 2, 5, 0, [inv_t], seed_off + 2)
         snap_trace(ctx, "pods-8to11", "pods-wide", 3, 4, 5, 400000, [inv_t], seed_off + 3)
+        snap_trace(ctx, "pods-stale", "pods-stale", 2, 3, 5, 400000, [inv_t], seed_off + 4)
         ctx.exhaustive = True
         ctx.extra["exhaustive_note"] = "domain pods-del(ord<=1) enumerated completely through the real controller; larger domains sampled"
     ctx.add_samples(sh, 2, sample_pred)
@@ -337,6 +339,11 @@ def check_C05(ctx):
 
 def check_C07(ctx):
     engine_check(ctx, "C07", has_call("delete", "pods"), 7)
+    # the walk under API failures: a delete that answers NotFound / Conflict / a server error still ends the pass
+    snap_trace(ctx, "faults-pods", "faults-pods", 2, 3, 5, 40000 if ctx.quick else 500000, ["P_C07"], 71)
+    # history: with stale caches and several revisions in flight, the current revision never advances early (so that
+    # "built from the current revision" keeps its meaning below the partition), one pod at a time
+    cluster_check(ctx, ["B_C07"], ["P_C07"], invariants=[], properties=["RollsOneAtATime"], scale=0.5)
 
 
 def check_C12(ctx):
